@@ -159,10 +159,6 @@ def emit (c : Case) : List Pair :=
   | .json | .text => slogChain c.user [] (.withAttrs c.root :: c.chain) c.call
   | .console => consoleHandle c.user (consoleChain c.user {} (.withAttrs c.root :: c.chain)) c.call
 
-/-- K20a repaired, K20d still as shipped (what /repo contains between the two `fix:` commits) -/
-def emitK20d (c : Case) : List Pair :=
-  emit { c with chain := if c.buffered then [] else c.chain }
-
 /-- as shipped: the console handler never consults ReplaceAttr (K20a), and a buffered record is
     replayed through the *root* handler, so whatever `With`/`WithGroup` bound is dropped (K20d) -/
 def emitAsIs (c : Case) : List Pair :=
